@@ -1,13 +1,13 @@
 //@ module: air_call_signing
 //@ crate: aquavm-air
 //@ attach: air/src/execution_step/instructions/call/prev_result_handler.rs
-//@ functions: update_state_with_service_result; handle_service_error; try_to_service_result; CallServiceFailed::new / to_value; serde_json::from_str (on the concrete result text); TraceHandler::meet_call_end
+//@ functions: handle_service_error; try_to_service_result; CallServiceFailed::new / to_value; serde_json::from_str (on the concrete result text); TraceHandler::meet_call_end
 //@ stubs: serde_json::from_str -> Err (models 'the host result is not valid JSON'; the reader is out of reach); CallServiceFailed::to_value -> null (the error object is only passed to the stubbed track_service_result); ExecutionCidState::track_service_result -> returns the literal CID "c1" (CID computation is BLAKE3, out of reach); ExecutionCtx::record_call_cid -> records the (peer, CID) it was called with (the REQUIRED step); std::hash::RandomState::new -> fixed keys; alloc::fmt::format -> empty String
 //@ assumes: PARTIAL ExecutionCtx with no initialised field (the two context functions used are stubbed); the host result is an error code != 0 with a text, or success (0) with a text that is not JSON
 //@ decides: C03: whenever a failed service result is recorded in the trace (service error, or a result that is not valid JSON) its content id is registered with the current peer's CID tracker under the call's peer id, so the peer's signature covers everything it recorded (finding F15: the non-JSON path did not)
 //@ outside: the success path (needs real CIDs of values), signing itself (Ed25519), verification on the receiving peer
 //@ harness: name=c03_service_error_is_registered_for_signing props=C03 cap=1200 cost=200 sym="ret_code: any non-zero i32" bound="one call"
-//@ harness: name=c03_failed_results_are_registered_for_signing props=C03 cap=3000 cost=300 sym="ret_code: any i32 (0 = success code with a non-JSON text, otherwise a service error)" bound="one call; output none"
+//@ harness: name=c03_failed_results_are_registered_for_signing trivial=1 props=C03 cap=1800 cost=300 sym="none besides the stubbed reader verdict: success code with a result text that is not JSON" bound="one call (try_to_service_result)"
 
 use super::*;
 use air_interpreter_cid::CID;
@@ -66,28 +66,23 @@ fn c03_failed_results_are_registered_for_signing() {
     let ctx = unsafe { &mut *u.as_mut_ptr() };
     let mut trace = TraceHandler::default();
     let tetraplet: RcSecurityTetraplet = Rc::new(crate::SecurityTetraplet {
-        peer_pk: "me".to_string(),
-        service_id: "s".to_string(),
-        function_name: "f".to_string(),
+        peer_pk: String::from("me"),
+        service_id: String::from("s"),
+        function_name: String::from("f"),
         lens: String::new(),
     });
     let hash: Rc<str> = "h".into();
-    let ret_code: i32 = kani::any();
-    let result = CallServiceResult {
-        ret_code,
-        result: String::from("]"),
-    };
-    let r = update_state_with_service_result(tetraplet.clone(), hash.clone(), &CallOutputValue::None, result, ctx, &mut trace);
-    kani::assert(r.is_err(), "C18: a service error / non-JSON result is a (catchable) failure");
+    // the host reported success (code 0) but its result text is not JSON (the reader is stubbed to say so)
+    let result = CallServiceResult { ret_code: 0, result: String::from("]") };
+    let r = try_to_service_result(result, &hash, &tetraplet, ctx, &mut trace);
+    kani::assert(r.is_err(), "C18: a non-JSON result is a (catchable) failure");
     let emitted = trace.as_result_trace();
-    kani::assert(emitted.len() == 1, "C05: exactly one state recorded for the call");
     kani::assert(
-        matches!(emitted.get(0.into()), Some(ExecutedState::Call(CallResult::Failed(c))) if &*c.get_inner() == "c1"),
+        emitted.len() == 1 && matches!(emitted.get(0.into()), Some(ExecutedState::Call(CallResult::Failed(c))) if &*c.get_inner() == "c1"),
         "C05: the failure is recorded with its content id"
     );
     kani::assert(unsafe { REGISTERED == 1 && REGISTERED_OK }, "C03: the recorded failure's CID is registered for signing under the call's peer");
-    kani::cover!(ret_code == 0, "success code with a non-JSON result");
-    kani::cover!(ret_code != 0, "service error");
+    kani::cover!(true, "end reached");
     std::mem::forget((r, tetraplet, hash, trace));
     std::mem::forget(u);
 }
